@@ -1,4 +1,6 @@
 import IwModel.Lemmas.Vnum
+import IwModel.Lemmas.Conv
+import IwModel.Lemmas.Cmp
 /-! # C19 — number codecs round-trip and key comparators are total orders
 
 Property theorems only; helper lemmas live in `IwModel/Lemmas`. -/
@@ -44,5 +46,321 @@ theorem vnum_size (n : Nat) (h : n < 2 ^ 64) :
 /-- non-vacuity: a three-byte value -/
 example : Vnum.dec (Vnum.enc 20000 ++ [7]) = some (20000, (Vnum.enc 20000).length) ∧ Vnum.size 20000 = 3 :=
   ⟨vnum_dec_enc 20000 [7], by decide⟩
+
+/-! ## decimal text -/
+
+/-- Reading back (with `iwatoi`, computed in ℤ) the decimal text of any integer yields that integer.
+    Holds for every `v : Int`, in particular on all 64-bit values. -/
+theorem atoi_itoaSpec (v : Int) : Conv.atoi (Conv.itoaSpec v) = v := by
+  unfold Conv.itoaSpec
+  split
+  · rw [Conv.atoi_neg_digits]; omega
+  · rw [Conv.atoi_digits]; omega
+
+/-- On the `int64_t` range the two's-complement wrap-around of `iwatoi`'s accumulator is the identity,
+    so the ℤ-valued `Conv.atoi` is what the C function returns there. -/
+theorem wrap64_id (v : Int) (lo : -2 ^ 63 ≤ v) (hi : v < 2 ^ 63) : Conv.wrap64 v = v := by
+  unfold Conv.wrap64; omega
+
+/-- text → integer ∘ integer → text is the identity on all 64-bit values, including the wrap. -/
+theorem atoi_itoaSpec_wrap (v : Int) (lo : -2 ^ 63 ≤ v) (hi : v < 2 ^ 63) :
+    Conv.wrap64 (Conv.atoi (Conv.itoaSpec v)) = v := by
+  rw [atoi_itoaSpec, wrap64_id v lo hi]
+
+/-- non-vacuity: INT64_MIN is in range and reads back -/
+example : Conv.wrap64 (Conv.atoi (Conv.itoaSpec (-2 ^ 63))) = -2 ^ 63 :=
+  atoi_itoaSpec_wrap _ (by decide) (by decide)
+
+/-- `iwitoa(v, buf, max)` never stores outside `buf[0 .. max)`: on the guarded-buffer model every
+    guard cell before and after the caller's buffer still holds the fill pattern after the call and the
+    memory keeps its size. Holds for EVERY `max` (including 0 and 1, where nothing but possibly the NUL
+    fits) and every `v` (the model mirrors the C code for `-2^63 ≤ v < 2^63`), on the truncating paths
+    (`memmove` of the digit window) as well as on the `snprintf` path for `INT64_MIN`. -/
+theorem itoa_bounds (v : Int) (max : Nat) :
+    Conv.oobWrites (Conv.itoa v max).2 max = [] ∧ (Conv.itoa v max).2.length = max + 2 * Conv.pad :=
+  ⟨Conv.oobWrites_of_guard (Conv.guard_itoa v max), (Conv.guard_itoa v max).1⟩
+
+/-- the form asked for by the property text: 64-bit values -/
+theorem itoa_bounds64 (v : Int) (max : Nat) (_lo : -2 ^ 63 ≤ v) (_hi : v < 2 ^ 63) :
+    Conv.oobWrites (Conv.itoa v max).2 max = [] := (itoa_bounds v max).1
+
+/-- non-vacuity: a truncating call (5 digits and a sign into 3 bytes) and the degenerate sizes -/
+example : Conv.oobWrites (Conv.itoa (-12345) 3).2 3 = [] ∧ Conv.oobWrites (Conv.itoa 7 0).2 0 = [] ∧
+    Conv.oobWrites (Conv.itoa (-7) 1).2 1 = [] :=
+  ⟨(itoa_bounds _ _).1, (itoa_bounds _ _).1, (itoa_bounds _ _).1⟩
+
+/-- non-vacuity of the observer: a store one past a 2-byte buffer IS reported by `oobWrites` -/
+example : Conv.oobWrites ((Conv.Mem.init 2).set (Conv.pad + 2) 0) 2 = [Conv.pad + 2] := by decide
+
+/-- Mechanism = specification: when the decimal text of `v` plus its NUL fits (`length < max`), the
+    buffer left by `iwitoa` (digit loop least-significant-first, in-place reversal, NUL; `snprintf`
+    for `INT64_MIN`) holds exactly the decimal text of `v` and the return value is its length —
+    for every `v ≥ INT64_MIN` (the model mirrors the C code up to `INT64_MAX`). -/
+theorem itoa_refines_spec (v : Int) (max : Nat) (lo : -2 ^ 63 ≤ v)
+    (hlen : (Conv.itoaSpec v).length < max) :
+    Conv.cstr (Conv.itoa v max).2 = Conv.itoaSpec v ∧ (Conv.itoa v max).1 = (Conv.itoaSpec v).length :=
+  Conv.itoa_spec v max lo hlen
+
+/-- Round trip through the mechanism: `iwatoi` applied to the buffer that `iwitoa` filled returns `v`,
+    for EVERY 64-bit `v` (including `INT64_MIN` and `INT64_MAX`) and every buffer in which the text fits. -/
+theorem atoi_itoa (v : Int) (max : Nat) (lo : -2 ^ 63 ≤ v) (hi : v < 2 ^ 63)
+    (hlen : (Conv.itoaSpec v).length < max) :
+    Conv.wrap64 (Conv.atoi (Conv.cstr (Conv.itoa v max).2)) = v := by
+  rw [(itoa_refines_spec v max lo hlen).1]
+  exact atoi_itoaSpec_wrap v lo hi
+
+/-- a 21-byte buffer is enough for every 64-bit value (at most 19 digits and a sign) -/
+theorem itoaSpec_length_le (v : Int) (lo : -2 ^ 63 ≤ v) (hi : v < 2 ^ 63) : (Conv.itoaSpec v).length < 21 :=
+  Conv.itoaSpec_length_lt v lo hi
+
+/-- headline form: with a buffer of at least 21 bytes (`IWNUMBUF_SIZE` is 32) `iwatoi ∘ iwitoa` is the
+    identity on all 64-bit values -/
+theorem atoi_itoa64 (v : Int) (max : Nat) (lo : -2 ^ 63 ≤ v) (hi : v < 2 ^ 63) (hmax : 21 ≤ max) :
+    Conv.wrap64 (Conv.atoi (Conv.cstr (Conv.itoa v max).2)) = v :=
+  atoi_itoa v max lo hi (by have := itoaSpec_length_le v lo hi; omega)
+
+/-- non-vacuity: `INT64_MIN` into `IWNUMBUF_SIZE` bytes -/
+example : Conv.wrap64 (Conv.atoi (Conv.cstr (Conv.itoa (-2 ^ 63) Gen.IWNUMBUF_SIZE).2)) = -2 ^ 63 :=
+  atoi_itoa64 _ _ (by decide) (by decide) (by decide)
+
+/-- non-vacuity: "-12345" needs 7 bytes -/
+example : Conv.cstr (Conv.itoa (-12345) 7).2 = [45, 49, 50, 51, 52, 53] ∧ (Conv.itoa (-12345) 7).1 = 6 := by
+  have h : Conv.itoaSpec (-12345) = [45, 49, 50, 51, 52, 53] := by
+    simp [Conv.itoaSpec, Conv.digits]
+  have := itoa_refines_spec (-12345) 7 (by decide) (by rw [h]; decide)
+  rw [h] at this; exact this
+
+/-! ## hex -/
+
+/-- side condition on the regenerated table `ascii2hex` of iwconv.c: it inverts the 16 lower-case
+    hex digit characters that `iwbin2hex` emits -/
+theorem ascii2hex_ok : ∀ h < 16, Conv.tbl (Conv.hexchar h) = h := Conv.tbl_hexchar
+
+/-- `iwhex2bin(iwbin2hex(bs))` = `bs` for every byte string that fits the output buffer. -/
+theorem hex_roundtrip (bs : Bytes) (max : Nat) (hwf : Bytes.wf bs) (hlen : bs.length ≤ max)
+    (_hmax : 0 < max) : Conv.hex2bin (Conv.bin2hex bs) max = bs :=
+  Conv.hex2bin_bin2hex bs max hwf hlen
+
+/-- non-vacuity -/
+example : Conv.hex2bin (Conv.bin2hex [0, 255, 0x1f, 0xa0]) 4 = [0, 255, 0x1f, 0xa0] :=
+  hex_roundtrip _ 4 (by intro b hb; simp at hb; omega) (by decide) (by decide)
+
+/-! ## key comparators — byte-string keys
+
+`Cmp.cmpK compound a b` runs `_cmp_keys` in plain mode on the effective key `a = (body, compound part)`
+as stored in a node (`vnum(compound) ++ body` in compound mode) against the lookup key `b`. -/
+
+/-- antisymmetry, both layouts: swapping stored and lookup key flips the sign -/
+theorem plain_antisymm (c : Bool) (a b : Bytes × Nat) :
+    sgn (Cmp.cmpK c a b) = - sgn (Cmp.cmpK c b a) := Cmp.cmpK_antisymm c a b
+
+/-- non-compound byte keys compare equal only when identical (the compound part is not part of
+    the key in this layout). No bound on length or byte values is needed. -/
+theorem plain_eq_iff (a b : Bytes × Nat) : Cmp.cmpK false a b = 0 ↔ a.1 = b.1 := by
+  rw [Cmp.cmpK_false]
+  exact ⟨fun h => (Cmp.tieBreak_eq_zero h).symm, fun h => by rw [h]; exact Cmp.tieBreak_self _⟩
+
+/-- compound byte keys compare equal only when body AND compound part are identical; the compound
+    part is read back from its vnum encoding (`Vnum.decAux_enc`), for every natural number, hence
+    for all of `[0, 2^63)`. -/
+theorem plain_compound_eq_iff (a b : Bytes × Nat) : Cmp.cmpK true a b = 0 ↔ a = b :=
+  Cmp.cmpK_true_eq_zero a b
+
+/-- transitivity, both layouts -/
+theorem plain_trans (c : Bool) (a b d : Bytes × Nat) (h1 : Cmp.cmpK c a b > 0) (h2 : Cmp.cmpK c b d > 0) :
+    Cmp.cmpK c a d > 0 := Cmp.cmpK_trans c a b d h1 h2
+
+/-- what the order is: bytewise lexicographic with the length as tie-break (`Cmp.tieBreak` =
+    `memcmp` on the common prefix, then length difference), then — compound layout only — the
+    compound part in numeric order. -/
+theorem plain_order (a b : Bytes × Nat) :
+    Cmp.cmpK false a b = Cmp.tieBreak b.1 a.1 ∧
+    Cmp.cmpK true a b = (if Cmp.tieBreak b.1 a.1 = 0 then
+        (if b.2 > a.2 then 1 else if b.2 < a.2 then -1 else 0) else Cmp.tieBreak b.1 a.1) := by
+  refine ⟨Cmp.cmpK_false a b, ?_⟩
+  rw [Cmp.cmpK_true, Cmp.cmp3_nat]
+
+/-- non-vacuity: the hypotheses of `plain_trans` are satisfiable in both layouts; in the compound
+    layout a tie on the body is broken by the compound part -/
+example : Cmp.cmpK false ([1, 2], 0) ([1, 2, 0], 0) > 0 ∧ Cmp.cmpK false ([1, 2, 0], 0) ([1, 3], 0) > 0 ∧
+    Cmp.cmpK true ([7], 200) ([7], 300) > 0 ∧ Cmp.cmpK true ([7], 300) ([8], 0) > 0 := by
+  simp [Cmp.cmpK_false, Cmp.cmpK_true, Cmp.tieBreak_cons_cons, Cmp.cmp3]
+
+/-! ## key comparators — integer keys (`IWDB_VNUM64_KEYS`) -/
+
+/-- Integer keys, plain layout: the comparator on the vnum encodings of two numbers of the
+    `int64_t` non-negative range has the sign of the numeric order (`> 0` iff the lookup key `b` is
+    the larger) — through the decoded values when both encodings have the same length and through
+    the length short-cut otherwise (encoded length is monotone in the value). -/
+theorem vnum_numeric (a b c2 : Nat) (ha : a < 2 ^ 63) (hb : b < 2 ^ 63) :
+    sgn (Cmp.cmpKeys .vnum false (Vnum.enc a) (Vnum.enc b) c2)
+      = if b > a then 1 else if b < a then -1 else 0 := Cmp.cmpKeys_vnum_nc c2 ha hb
+
+/-- Integer keys, compound layout: numeric order on the number, ties broken by the numeric order of
+    the compound part (for every compound part, no bound needed). -/
+theorem vnum_compound_numeric (a b c1 c2 : Nat) (ha : a < 2 ^ 63) (hb : b < 2 ^ 63) :
+    sgn (Cmp.cmpKeys .vnum true (Cmp.stored true (Vnum.enc a) c1) (Vnum.enc b) c2)
+      = if b > a then 1 else if b < a then -1 else if c2 > c1 then 1 else if c2 < c1 then -1 else 0 :=
+  Cmp.cmpKeys_vnum_c c1 c2 ha hb
+
+/-- Hence the integer-key comparator is a strict total order on effective keys `(number, compound)`
+    in both layouts: antisymmetric, transitive, and zero exactly on identical keys (in the plain layout
+    the compound part is not part of the key). -/
+theorem vnum_total (c : Bool) (x y z : Nat × Nat) (hx : x.1 < 2 ^ 63) (hy : y.1 < 2 ^ 63) (hz : z.1 < 2 ^ 63) :
+    sgn (Cmp.cmpV c x y) = - sgn (Cmp.cmpV c y x) ∧
+    (Cmp.cmpV c x y = 0 ↔ x.1 = y.1 ∧ (c = true → x.2 = y.2)) ∧
+    (Cmp.cmpV c x y > 0 → Cmp.cmpV c y z > 0 → Cmp.cmpV c x z > 0) := by
+  cases c with
+  | false =>
+    have e : ∀ u v : Nat × Nat, Cmp.cmpV false u v = Cmp.cmpKeys .vnum false (Vnum.enc u.1) (Vnum.enc v.1) v.2 :=
+      fun u v => by simp [Cmp.cmpV, Cmp.stored]
+    have hxy := vnum_numeric x.1 y.1 y.2 hx hy
+    have hyx := vnum_numeric y.1 x.1 x.2 hy hx
+    have hyz := vnum_numeric y.1 z.1 z.2 hy hz
+    have hxz := vnum_numeric x.1 z.1 z.2 hx hz
+    rw [← e] at hxy hyx hyz hxz
+    refine ⟨?_, ?_, ?_⟩
+    · rw [hxy, hyx]; repeat' split
+      all_goals omega
+    · rw [← Cmp.sgn_zero, hxy]; repeat' split
+      all_goals simp <;> omega
+    · rw [← Cmp.sgn_pos, ← Cmp.sgn_pos, ← Cmp.sgn_pos, hxy, hyz, hxz]; repeat' split
+      all_goals omega
+  | true =>
+    have hxy := vnum_compound_numeric x.1 y.1 x.2 y.2 hx hy
+    have hyx := vnum_compound_numeric y.1 x.1 y.2 x.2 hy hx
+    have hyz := vnum_compound_numeric y.1 z.1 y.2 z.2 hy hz
+    have hxz := vnum_compound_numeric x.1 z.1 x.2 z.2 hx hz
+    refine ⟨?_, ?_, ?_⟩
+    · show sgn (Cmp.cmpKeys _ _ _ _ _) = - sgn (Cmp.cmpKeys _ _ _ _ _)
+      rw [hxy, hyx]; repeat' split
+      all_goals omega
+    · show Cmp.cmpKeys _ _ _ _ _ = 0 ↔ _
+      rw [← Cmp.sgn_zero, hxy]; repeat' split
+      all_goals simp <;> omega
+    · show Cmp.cmpKeys _ _ _ _ _ > 0 → Cmp.cmpKeys _ _ _ _ _ > 0 → Cmp.cmpKeys _ _ _ _ _ > 0
+      rw [← Cmp.sgn_pos, ← Cmp.sgn_pos, ← Cmp.sgn_pos, hxy, hyz, hxz]; repeat' split
+      all_goals omega
+
+/-- non-vacuity: 127 (1 byte) vs 128 (2 bytes) takes the length short-cut, 300 vs 200 the decoded
+    branch; both bounds are satisfiable -/
+example : sgn (Cmp.cmpKeys .vnum false (Vnum.enc 127) (Vnum.enc 128) 0) = 1 ∧
+    sgn (Cmp.cmpKeys .vnum false (Vnum.enc 300) (Vnum.enc 200) 0) = -1 ∧
+    sgn (Cmp.cmpKeys .vnum true (Cmp.stored true (Vnum.enc 5) 9) (Vnum.enc 5) 10) = 1 :=
+  ⟨vnum_numeric 127 128 0 (by decide) (by decide), vnum_numeric 300 200 0 (by decide) (by decide),
+   vnum_compound_numeric 5 5 9 10 (by decide) (by decide)⟩
+
+/-! ## key comparators — real-number keys (`IWDB_REALNUM_KEYS`, `iwafcmp`) -/
+
+/-- `iwafcmp` is a strict total order on byte strings for EVERY way of turning the fraction digits
+    into a value (`frac`, e.g. the long-double accumulation of the C code with whatever rounding) as
+    long as `lt` on those values is a strict weak order: it is antisymmetric, zero only on identical
+    byte strings, and transitive. It is the lexicographic product of the signed integer part, the
+    fraction value and the bytes (`Cmp.afcmpWith_eq`). -/
+theorem real_total {α : Type} (lt : α → α → Bool) (zero : α) (frac : Int → List Nat → α)
+    (h : Cmp.StrictWeak lt) (a b c : Bytes) :
+    sgn (Cmp.afcmpWith lt zero frac a b) = - sgn (Cmp.afcmpWith lt zero frac b a) ∧
+    (Cmp.afcmpWith lt zero frac a b = 0 ↔ a = b) ∧
+    (Cmp.afcmpWith lt zero frac a b < 0 → Cmp.afcmpWith lt zero frac b c < 0 →
+      Cmp.afcmpWith lt zero frac a c < 0) :=
+  ⟨Cmp.afcmpWith_antisymm lt zero frac h a b, Cmp.afcmpWith_eq_zero lt zero frac h a b,
+   Cmp.afcmpWith_trans lt zero frac h a b c⟩
+
+/-- the same for a strict linear order on the fraction values: irreflexive, transitive, trichotomous -/
+theorem real_total_linear {α : Type} (lt : α → α → Bool) (zero : α) (frac : Int → List Nat → α)
+    (irrefl : ∀ x, lt x x = false) (trans : ∀ x y z, lt x y = true → lt y z = true → lt x z = true)
+    (tri : ∀ x y, lt x y = true ∨ x = y ∨ lt y x = true) (a b c : Bytes) :
+    sgn (Cmp.afcmpWith lt zero frac a b) = - sgn (Cmp.afcmpWith lt zero frac b a) ∧
+    (Cmp.afcmpWith lt zero frac a b = 0 ↔ a = b) ∧
+    (Cmp.afcmpWith lt zero frac a b < 0 → Cmp.afcmpWith lt zero frac b c < 0 →
+      Cmp.afcmpWith lt zero frac a c < 0) :=
+  real_total lt zero frac (Cmp.StrictWeak.of_linear lt irrefl trans tri) a b c
+
+/-- instance: the executable comparator of the model (exact fractions) and with it `_cmp_keys` in
+    real-number mode, plain layout (`> 0` iff the lookup key `k` sorts after the stored key `v1`) -/
+theorem real_keys_total (a b c : Bytes) (c2 : Nat) :
+    Cmp.cmpKeys .real false a b c2 = Cmp.afcmp b a ∧
+    sgn (Cmp.afcmp a b) = - sgn (Cmp.afcmp b a) ∧ (Cmp.afcmp a b = 0 ↔ a = b) ∧
+    (Cmp.afcmp a b < 0 → Cmp.afcmp b c < 0 → Cmp.afcmp a c < 0) := by
+  refine ⟨by simp [Cmp.cmpKeys, Cmp.cmpPrefix], ?_⟩
+  exact real_total_linear _ _ _ (by simp) (by simp only [decide_eq_true_eq]; omega)
+    (by simp only [decide_eq_true_eq]; omega) a b c
+
+/-- non-vacuity: "1.5" < "1.50" < "2" — fraction tie broken by the bytes; integer part decides -/
+example : Cmp.afcmp [49, 46, 53] [49, 46, 53, 48] < 0 ∧ Cmp.afcmp [49, 46, 53, 48] [50] < 0 := by decide
+
+/-- Real-number keys through `_cmp_keys`, both layouts (`Cmp.cmpR c x y`: `x = (text, compound part)` as
+    stored, `y` the lookup key): antisymmetric, zero exactly on identical keys (in the plain layout the
+    compound part is not part of the key), transitive. Stored keys are non-empty (`iwkv_put` rejects
+    `key->size == 0`); for an empty stored text the compound branch of `_cmp_keys_prefix` returns the
+    length of the lookup key without looking at the compound parts. -/
+theorem real_keys_total_both (c : Bool) (x y z : Bytes × Nat) (hx : x.1 ≠ []) (hy : y.1 ≠ []) :
+    sgn (Cmp.cmpR c x y) = - sgn (Cmp.cmpR c y x) ∧
+    (Cmp.cmpR c x y = 0 ↔ x.1 = y.1 ∧ (c = true → x.2 = y.2)) ∧
+    (Cmp.cmpR c x y > 0 → Cmp.cmpR c y z > 0 → Cmp.cmpR c x z > 0) := Cmp.cmpR_total c x y z hx hy
+
+/-- non-vacuity: same text "1.5", compound parts 3 < 4 -/
+example : Cmp.cmpR true ([49, 46, 53], 3) ([49, 46, 53], 4) > 0 := by
+  rw [Cmp.cmpR_true _ _ (by simp)]; decide
+
+/-! ## comparison through the cached key prefix (`_lx_sblk_cmp_key`) -/
+
+/-- Byte keys, plain layout: comparing the lookup key with a node through the cached prefix of the
+    node's lowest key (`Gen.PREFIX_KEY_LEN_V2` = 115 bytes, `SBLK_FULL_LKEY`, the `ksize < lkl`
+    short-cut, the fall-back to the full key on a prefix tie) has the same sign as comparing with the
+    full key — for EVERY stored key, lookup key and (kept abstract) cache length. -/
+theorem prefix_agrees_plain (full k : Bytes) (c2 : Nat) :
+    sgn (Cmp.lxCmp .plain false full k c2) = sgn (Cmp.cmpKeys .plain false full k c2) :=
+  Cmp.lxCmp_plain_nc full k c2
+
+/-- Byte keys, compound layout (code after fix 1a3b861, finding F39): the comparison through the cached
+    prefix has the same sign as the comparison with the full stored key `vnum(c1) ++ body`, for EVERY
+    body, lookup key and pair of compound parts; `hL`: the compound vnum fits the cache. -/
+theorem prefix_agrees_compound (body k : Bytes) (c1 c2 : Nat)
+    (hL : (Vnum.enc c1).length < Gen.PREFIX_KEY_LEN_V2) :
+    sgn (Cmp.lxCmp .plain true (Cmp.stored true body c1) k c2)
+      = sgn (Cmp.cmpKeys .plain true (Cmp.stored true body c1) k c2) :=
+  Cmp.lxCmp_plain_c body c1 k c2 hL
+
+/-- `prefix_agrees_compound` for every compound part the encoder accepts (`[0, 2^63)`, at most
+    `IW_VNUMBUFSZ` = 10 bytes < 115), with the side condition on the generated constants discharged -/
+theorem prefix_agrees_compound64 (body k : Bytes) (c1 c2 : Nat) (h1 : c1 < 2 ^ 63) :
+    sgn (Cmp.lxCmp .plain true (Cmp.stored true body c1) k c2)
+      = sgn (Cmp.cmpKeys .plain true (Cmp.stored true body c1) k c2) := by
+  have l1 := Cmp.enc_length_le10 h1
+  have hP : Gen.IW_VNUMBUFSZ < Gen.PREFIX_KEY_LEN_V2 := by decide
+  exact prefix_agrees_compound body k c1 c2 (by omega)
+
+/-- numeric and real-number modes never use the prefix short-cut with a truncated key: their keys
+    (≤ 10 bytes, resp. compared as a whole) — the code calls `_cmp_keys` on the cached bytes, which
+    are the whole stored key whenever it fits the cache -/
+theorem prefix_agrees_short (mode : Cmp.Mode) (compound : Bool) (full k : Bytes) (c2 : Nat)
+    (h : full.length ≤ Gen.PREFIX_KEY_LEN_V2) :
+    Cmp.lxCmp mode compound full k c2 = Cmp.cmpKeys mode compound full k c2 := by
+  simp [Cmp.lxCmp, h, List.take_of_length_le h]
+
+set_option maxRecDepth 100000 in
+/-- The DEFECT fixed by 1a3b861 (finding F39), stated on the model of the OLD rule `Cmp.lxCmpOld`
+    (`ksize += IW_VNUMSIZE(key->compound)`): stored key = 120 × 0x05 with compound part 20000 (3-byte
+    vnum), lookup key = 112 × 0x05 ++ 0x04 with compound part 0 (1-byte vnum). The full comparison
+    says the lookup key is smaller (first difference at byte 112), the old cached-prefix path said it
+    is greater: `ksize = 113 + 1 < 115` took the short-cut although the cached body has only
+    115 - 3 = 112 bytes. The fixed rule agrees (`prefix_agrees_compound`). -/
+theorem prefix_old_rule_disagrees_witness :
+    Cmp.lxCmpOld .plain true (Cmp.stored true (List.replicate 120 5) 20000) (List.replicate 112 5 ++ [4]) 0 = 1 ∧
+    Cmp.cmpKeys .plain true (Cmp.stored true (List.replicate 120 5) 20000) (List.replicate 112 5 ++ [4]) 0 = -1 ∧
+    Cmp.lxCmp .plain true (Cmp.stored true (List.replicate 120 5) 20000) (List.replicate 112 5 ++ [4]) 0 = -1 := by
+  have e : Vnum.enc 20000 = [223, 227, 1] := by
+    rw [Vnum.enc, dif_neg (by decide), Vnum.enc, dif_neg (by decide), Vnum.enc, dif_pos (by decide)]
+  simp only [Cmp.stored, e, if_true]
+  decide
+
+/-- non-vacuity: a stored key longer than the cache, a lookup key that ties on the cached prefix -/
+example : sgn (Cmp.lxCmp .plain false (List.replicate 120 5 ++ [9]) (List.replicate 120 5 ++ [7]) 0) = -1 := by
+  rw [prefix_agrees_plain]; decide
+
+example : sgn (Cmp.lxCmp .plain true (Cmp.stored true (List.replicate 120 5) 300) (List.replicate 119 5 ++ [7]) 200)
+    = sgn (Cmp.cmpKeys .plain true (Cmp.stored true (List.replicate 120 5) 300) (List.replicate 119 5 ++ [7]) 200) :=
+  prefix_agrees_compound64 _ _ 300 200 (by decide)
 
 end IwModel.C19
